@@ -104,6 +104,11 @@ func vAssert(c bool, label string) {
 	}
 }
 func vReach(label string) {}
+func vSkipCase(c bool) {
+	if c {
+		panic(vAssumeFail{})
+	}
+}
 func vTrace(label string, b bool) {}
 func vNative() bool       { return true }
 func vBlock()             { panic(vBlocked{}) }
